@@ -19,8 +19,7 @@ from ..cfg import CFG, node_calls
 from ..partition import MiniInterp, Opaque, FRESH
 
 LEVEL = "other"
-TECHNIQUE = ("stream-filter effect analysis by branch partition over token types and over the URI predicates (exhaustive "
-             "enumeration of predicate outcomes, no solver); CFG dominance of allow-list tests over every keeping statement")
+TECHNIQUE = ('stream-filter effect analysis by branch partition over token types and over the URI predicates (exhaustive enumeration of predicate outcomes, helpers interpreted, no solver); CFG dominance of allow-list tests over every keeping statement; stripping patterns evaluated on representatives; total-lookup lint on constant tables')
 CLAIM = ("The sanitizer's gates are placed so that, on every path, a tag token leaves only as an allow-listed "
          'tag or as inert text, non-allow-listed attributes are removed before anything else and never re- '
          'added, a URI attribute survives only under the allowed-scheme / allowed-content-type predicates '
